@@ -12,6 +12,7 @@ from __future__ import annotations
 import base64
 import itertools
 import json
+import os
 from collections import Counter
 
 import numpy as np
@@ -35,12 +36,15 @@ FP = {
         "_ExpandFirstInput.pattern", "_ExpandFirstInput.check", "_ExpandFirstInput.rewrite",
         "_ExpandSecondInput.pattern", "_ExpandSecondInput.check", "_ExpandSecondInput.rewrite",
     ],
-    "onnxscript/rewriter/rules/common/_redundant_scatter_nd.py": ["ScatterAllDynamic.pattern", "ScatterAllDynamic.check", "ScatterAllDynamic.rewrite"],
+    "onnxscript/rewriter/rules/common/_redundant_scatter_nd.py": ["ScatterAllDynamic.pattern", "ScatterAllDynamic.check", "ScatterAllDynamic.rewrite",
+                                                                    "ScatterAllStatic.pattern", "ScatterAllStatic.check", "ScatterAllStatic.rewrite"],
+    "onnxscript/rewriter/rules/common/_collapse_slices.py": ["_check_if_redundant_slice", "_same_shape", "_identity_to_itself", "_potential_redundant_slice"],
     "onnxscript/rewriter/rules/common/_materialize_reshape_shape.py": [
         "MaterializeReshapeShape.check", "MaterializeReshapeShape.rewrite",
     ],
     "onnxscript/rewriter/rules/common/_basic_rules.py": [
-        "Flatten2Reshape.check", "Flatten2Reshape.rewrite", "ExpandIdentity.check",
+        "Flatten2Reshape.check", "Flatten2Reshape.rewrite", "ExpandIdentity.check", "SqueezeReshape.pattern", "SqueezeReshape.check",
+        "SqueezeReshape.rewrite",
     ],
 }
 
@@ -138,6 +142,13 @@ def search_helper_counterexample(kind, args, real_answer):
                 if rows < lt[0]:
                     return {"binding": sig, "unnamed": unn, "data_shape": ld, "scattered_shape": lt,
                             "why": f"ScatterND replaced by Identity(updates) although the index chain covers only rows 0..{rows - 1} of {lt[0]}"}
+        if kind == "evAdd" and real_answer not in ("N",) and real_answer.startswith("s"):
+            a, b = args
+            for opnd, other in ((a, b), (b, a)):
+                if opnd and len(opnd) == 1 and isinstance(opnd[0], int) and opnd[0] < 0 and other and isinstance(other[0], str):
+                    return {"binding": {other[0]: 0}, "unnamed": [],
+                            "why": f"a symbolic dim {real_answer[1:]!r} is recorded for {other[0]} + ({opnd[0]}), which is {opnd[0]} at {other[0]}=0; "
+                                   "`abs` then folds Abs of it to Identity"}
         if kind == "evAbs" and real_answer == "T":
             (a,) = args
             neg = [d for d in (a or []) if isinstance(d, int) and d < 0]
@@ -334,6 +345,8 @@ def parse_line_args(line):
         return kind, (dec_shape(t[1]), int(t[2]), None if t[3] == "N" else int(t[3]))
     if kind == "scatterDyn":
         return "ruleScatterDyn", (None if t[1] == "N" else int(t[1]), int(t[2]), dec_shape(t[3]), dec_shape(t[4]))
+    if kind == "evAdd":
+        return kind, (dec_shape(t[1]), dec_shape(t[2]))
     if kind == "evAbs":
         return kind, (dec_shape(t[1]),)
     if kind == "evReshape":
@@ -353,31 +366,79 @@ def parse_line_args(line):
 
 
 class Ort:
-    def __init__(self):
-        import onnxruntime as ort
+    """onnxruntime behind a child process (harness/c09_ortworker.py): a run that makes the runtime abort is
+    answered "CRASH:…" (and the worker is restarted) instead of killing the check."""
 
-        ort.set_default_logger_severity(4)
-        self.ort = ort
-        self.so = ort.SessionOptions()
-        self.so.graph_optimization_level = ort.GraphOptimizationLevel.ORT_DISABLE_ALL
-        self.so.log_severity_level = 4
-        self.so.intra_op_num_threads = 1
-        self.ro = ort.RunOptions()
-        self.ro.log_severity_level = 4
+    def __init__(self):
+        self.proc = None
+        self.bytes = {}      # handle -> model bytes
+        self.live = set()    # handles known to the current worker
+        self.n = 0
+        self.crashes = 0
+
+    def _start(self):
+        import subprocess
+        import sys as _sys
+
+        env = dict(os.environ)
+        self.proc = subprocess.Popen([_sys.executable, "-m", "harness.c09_ortworker"], stdin=subprocess.PIPE,
+                                     stdout=subprocess.PIPE, stderr=subprocess.DEVNULL, cwd=str(core.VERIF), env=env)
+        self.live = set()
+
+    def _call(self, req):
+        import pickle
+        import struct
+
+        if self.proc is None or self.proc.poll() is not None:
+            self._start()
+        try:
+            blob = pickle.dumps(req, protocol=pickle.HIGHEST_PROTOCOL)
+            self.proc.stdin.write(struct.pack("<I", len(blob)))
+            self.proc.stdin.write(blob)
+            self.proc.stdin.flush()
+            hdr = self.proc.stdout.read(4)
+            if len(hdr) < 4:
+                raise EOFError
+            (n,) = struct.unpack("<I", hdr)
+            return pickle.loads(self.proc.stdout.read(n))
+        except (EOFError, BrokenPipeError, OSError):
+            rc = self.proc.wait()
+            self.proc = None
+            self.crashes += 1
+            return f"CRASH:onnxruntime terminated the process (exit {rc}) while handling this model"
 
     def session(self, proto_bytes):
-        try:
-            return self.ort.InferenceSession(proto_bytes, self.so, providers=["CPUExecutionProvider"])
-        except Exception as e:
-            return "LOADERR:" + str(e)[:260]
+        self.n += 1
+        self.bytes[self.n] = proto_bytes
+        return self.n
 
     def run(self, sess, feeds):
         if isinstance(sess, str):
             return sess
-        try:
-            return sess.run(None, feeds, self.ro)
-        except Exception as e:
-            return "RUNERR:" + str(e)[:260]
+        if self.proc is None or self.proc.poll() is not None:
+            self._start()
+        if sess not in self.live:
+            r = self._call(("session", sess, self.bytes[sess]))
+            if isinstance(r, str) and r.startswith("CRASH"):
+                return r
+            self.live.add(sess)
+        return self._call(("run", sess, feeds))
+
+    def drop(self, handles):
+        for h in handles:
+            self.bytes.pop(h, None)
+        if self.proc is not None and self.proc.poll() is None:
+            self._call(("drop", [h for h in handles if h in self.live]))
+        self.live -= set(handles)
+
+    def close(self):
+        if self.proc is not None and self.proc.poll() is None:
+            try:
+                self.proc.stdin.close()
+                self.proc.wait(timeout=5)
+            except Exception:
+                self.proc.kill()
+        self.proc = None
 
 
 def same_outputs(a, b):
@@ -598,8 +659,11 @@ def run_models(run, drv, R, n_models, n_bind, stats, failures, tie_problems):
                                  "binding": {str(k): v for k, v in bnd.items()},
                                  "feeds": {k: v.tolist() for k, v in feeds.items()}, "feed_shapes": conc,
                                  "what": what, "known": fid, "tags": b.tags})
+        ortx.drop([sess0, so] + [x[3] for x in sessions])
         run.sample({"model_tags": b.tags, "inputs": [(n, str(s)) for n, _, s in b.inputs], "variants": [v[0] for v in variants]}, limit=6)
     stats["models"] = made
+    stats["runtime_crashes"] = ortx.crashes
+    ortx.close()
     return made
 
 
@@ -811,7 +875,9 @@ def main(run: core.Run) -> None:
     need = ["expandRemovable:ok1", "expandRemovable:ok2", "expandRemovable:ok3", "expandRemovable:fail1", "expandRemovable:fail2",
             "expandRemovable:fail3", "dimsSuff:ok", "dimsSuff:fail", "merge:RAISE", "evGather:RAISE", "evConcat:concat",
             "evConcat:sym", "evReshape:T", "evExpand:T", "evAbs:F", "materialize:some", "flatten:some", "flatten:N",
-            "ruleScatterDyn:T", "ruleScatterDyn:F", "expandRemovable:rank1", "expandRemovable:rank2"]
+            "ruleScatterDyn:T", "ruleScatterDyn:F", "expandRemovable:rank1", "expandRemovable:rank2",
+            "ruleScatterStatic:T", "ruleScatterStatic:F", "ruleCollapseSlice1:T", "ruleCollapseSlice1:F", "ruleCollapseSlice2:T",
+            "ruleCollapseSlice2:F", "ruleSqueezeReshape:T", "ruleSqueezeReshape:F", "getShapeValue:N", "getShapeValue:some"]
     missing = [b for b in need if branches.get(b, 0) == 0]
     if missing and not run.violations:
         raise core.Infra(f"generator degenerated: branches never hit: {missing}")
